@@ -199,3 +199,77 @@ Proof.
     by (unfold E, zn; nia).
   rewrite !Z.pow_add_r by (unfold zn; nia). ring.
 Qed.
+
+(* ---------- the window of digits against the exact shifted value ---------- *)
+
+(* dval - exact value = delta (mod 2^P), |delta| <= one unit of the last limb, delta = 0 if nothing is cut *)
+Lemma window_core (b P lo lsh : Z) (a : list Z) (rsz : nat) : 1 <= b -> 0 <= lsh < b ->
+  zn rsz * b + zn (length a) * b + Z.abs (lo * b + lsh) <= P ->
+  exists delta Y,
+    dval P b (vin a lsh) (zn (length a) - lo) rsz - val_scaled (P + (lo * b + lsh)) b a = delta + 2 ^ P * Y /\
+    Z.abs delta <= 2 ^ (P - zn rsz * b) /\
+    (zn (length a) * b - (lo * b + lsh) <= zn rsz * b -> delta = 0).
+Proof.
+  intros Hb Hl HP.
+  set (A := zn (length a)) in *. set (R := zn rsz) in *.
+  assert (HA : 0 <= A) by (unfold A, zn; lia). assert (HR : 0 <= R) by (unfold R, zn; lia).
+  assert (HP0 : 0 <= P) by nia.
+  set (T := A - lo). set (E := P - T * b).
+  assert (Hexact : A * b - (lo * b + lsh) <= R * b -> T <= R) by (unfold T; nia).
+  destruct (Z_le_gt_dec 0 E) as [HE|HE].
+  - rewrite (val_scaled_vin b P lo lsh a Hb ltac:(lia) HE). fold A T E.
+    destruct (dval_value b Hb (vin a lsh) (length a) (fun t Ht => vin_zero a lsh t Ht) P T rsz
+                ltac:(fold R; nia) HE) as (delta & Y & H1 & H2 & H3).
+    exists delta, Y. fold E in H1. fold R in H2, H3. split; [exact H1|]. split; [exact H2|].
+    intros Hx. apply H3. apply Hexact. exact Hx.
+  - (* only possible when the output is empty and something is truncated *)
+    assert (HR0 : R = 0) by (unfold E, T in HE; nia).
+    assert (HP1 : 1 <= P) by (unfold E, T in HE; nia).
+    set (X := dval P b (vin a lsh) T rsz - val_scaled (P + (lo * b + lsh)) b a).
+    destruct (wrap_exists P X HP1) as [q Hq].
+    exists (wrap P X), q. split; [lia|]. split.
+    + pose proof (wrap_range P X HP1) as [W1 W2].
+      pose proof (pow2_split P HP1). pose proof (pow2_pos (P - 1) ltac:(lia)).
+      replace (P - R * b) with P by nia. lia.
+    + intros Hx. specialize (Hexact Hx). unfold E in HE. nia.
+Qed.
+
+(* any routine whose output is  keep * r0 + s * window  (mod 1), s = +-1 *)
+Lemma variant_value (b P lo lsh keep s : Z) (a r0 out : list Z) : 1 <= b -> 0 <= lsh < b ->
+  s = 1 \/ s = -1 ->
+  (exists Z0, val_scaled P b out
+     = keep * val_scaled P b r0 + s * dval P b (vin a lsh) (zn (length a) - lo) (length out) + 2 ^ P * Z0) ->
+  zn (length out) * b + zn (length a) * b + Z.abs (lo * b + lsh) <= P ->
+  let D := tor_abs P (val_scaled P b out - keep * val_scaled P b r0
+                      - s * val_scaled (P + (lo * b + lsh)) b a) in
+  D <= 2 ^ (P - zn (length out) * b) /\
+  (zn (length a) * b - (lo * b + lsh) <= zn (length out) * b -> D = 0).
+Proof.
+  intros Hb Hl Hs [Z0 HZ] HP. cbv zeta.
+  destruct (window_core b P lo lsh a (length out) Hb Hl HP) as (delta & Y & H1 & H2 & H3).
+  assert (HP0 : 0 <= P) by (unfold zn in *; nia).
+  replace (val_scaled P b out - keep * val_scaled P b r0 - s * val_scaled (P + (lo * b + lsh)) b a)
+    with (s * delta + 2 ^ P * (s * Y + Z0)) by (rewrite HZ; nia).
+  rewrite tor_abs_add_mul by auto.
+  split.
+  - pose proof (tor_abs_le P (s * delta) HP0). destruct Hs; subst s; lia.
+  - intros Hx. rewrite (H3 Hx). rewrite Z.mul_0_r. apply tor_abs_0; auto.
+Qed.
+
+(* value of a list given by index *)
+Lemma val_scaled_ext (P b : Z) (l : list Z) (f : nat -> Z) :
+  (forall i, (i < length l)%nat -> nthZ l i = f i) ->
+  val_scaled P b l = sumn (length l) (fun i => f i * wt P b i).
+Proof.
+  intros Hf. rewrite val_scaled_sumn. apply sumn_ext. intros i Hi. rewrite Hf by auto. reflexivity.
+Qed.
+
+(* out_i = base_i + s * window_i *)
+Lemma val_scaled_affine (P b s T : Z) (v : nat -> Z) (l r0 : list Z) (keep : Z) :
+  length l = length r0 ->
+  (forall i, (i < length l)%nat -> nthZ l i = keep * nthZ r0 i + s * dgz b v (T - 1 - zn i)) ->
+  val_scaled P b l = keep * val_scaled P b r0 + s * dval P b v T (length l).
+Proof.
+  intros Hlen Hn. rewrite (val_scaled_ext P b l _ Hn), (val_scaled_sumn P b r0). unfold dval.
+  rewrite <- Hlen, <- !sumn_scale, <- sumn_plus. apply sumn_ext. intros i Hi. ring.
+Qed.
